@@ -475,6 +475,19 @@ func (r *Run) reportFailures(ld *Loaded, os_ []*OblResult, compMask func(string)
 				rf.Note += "; the tree has fields outside the state the contracts describe (" + strings.Join(keysOf(r.unmodelled), ", ") + "): their entry values are arbitrary in the obligation and zero in the replay, so a counterexample that needs a non-zero value there does not replay"
 			}
 		}
+		if o.Status != "failed" && !(o.res != nil && o.res.Status == "structure") {
+			// no verdict from any solver within the limits (after the retry with a
+			// longer limit and the case-split fall-backs): the obligation is
+			// undecided.  A failed proof attempt is not a counterexample.
+			path := r.replayPath(o.Name)
+			data, _ := json.MarshalIndent(rf, "", " ")
+			os.MkdirAll(filepath.Dir(path), 0o755)
+			os.WriteFile(path, append(data, '\n'), 0o644)
+			r.mu.Lock()
+			r.Undecided = append(r.Undecided, fmt.Sprintf("%s: no solver decided it within the limits (%s); details in %s", o.Name, o.Note, path))
+			r.mu.Unlock()
+			continue
+		}
 		if o.bounded != nil && noInput {
 			// generated from a bounded unrolling: neither a proof nor - without a
 			// failing input on the real code - a refutation
